@@ -567,3 +567,44 @@ _run_before_r7 = run
 def run(ctx):
     _run_before_r7(ctx)
     r7_bestmove_text_is_the_whole_move(ctx)
+
+
+def r8_time_is_the_whole_duration(ctx):
+    """the `time` of an info line is the whole elapsed time, not its sub-second part"""
+    rid = "C16.R8"
+    ctx.rule(rid, "the console writer formats the elapsed time of an info line from the whole Duration (as_millis / as_secs-based), never from a sub-second part alone (subsec_millis / subsec_micros / subsec_nanos): those wrap at every full second, so the reported time would decrease within one search", floor=1)
+    prog = ctx.prog
+    f = ctx.fn(rid, TXIMPL + "info", positional=False)
+    keys = [TXIMPL + "info"] + sorted(k for k in prog.fns if k.startswith(TXIMPL + "info::"))
+    whole, part = [], []
+    for k in keys:
+        g = prog.fns.get(k)
+        if g is None:
+            continue
+        for bb in g["blocks"]:
+            t = bb["term"]
+            if t["k"] == "call" and not bb["cleanup"]:
+                ck = t["callee"].get("key") or ""
+                if ck.startswith("core::time::Duration::"):
+                    m = ck.rsplit("::", 1)[-1]
+                    if m.startswith("subsec_"):
+                        part.append((g, t["line"], m))
+                    elif m.startswith("as_"):
+                        whole.append((g, t["line"], m))
+    if part and not any(m in ("as_secs", "as_secs_f32", "as_secs_f64") for _, _, m in whole):
+        g, line, m = part[0]
+        ctx.ob(rid, "info|time-from-the-whole-duration", False,
+               "the info line's time is formatted from Duration::%s, the part below one second: after 1.19 s it prints 190, less than the 712 printed before - the reported time decreases within one search (use as_millis)" % m,
+               ctx.where(g, line))
+    elif whole:
+        ctx.ob(rid, "info|time-from-the-whole-duration", True, "", ctx.where(f), sample={"via": sorted({m for _, _, m in whole})})
+    else:
+        ctx.lost(rid, "how ConsoleUciTx::info turns the elapsed Duration into a number")
+
+
+_run_before_r8 = run
+
+
+def run(ctx):
+    _run_before_r8(ctx)
+    r8_time_is_the_whole_duration(ctx)
